@@ -30,7 +30,7 @@ def main():
     units = args or sorted({d.opt('unit') for d in vcheck.all_directives()})
     outdir = tempfile.mkdtemp(prefix='stab_', dir='/var/tmp')
     for u in units:
-        extract.build_unit(vcheck.world(), u, outdir)
+        extract.build_unit(vcheck.world(u), u, outdir)
     jobs = [(u, s) for u in units for s in range(1, seeds + 1)]
     brittle = 0
     with concurrent.futures.ThreadPoolExecutor(max_workers=7) as ex:
